@@ -4,6 +4,8 @@ import QbeeModel.Model.NumFmt
 import QbeeModel.Model.Data
 import QbeeModel.Model.Input
 import QbeeModel.Model.Using
+import QbeeModel.Model.Instr
+import QbeeModel.Model.Module
 /-
   Line-protocol driver for the executable models.  One request per line, one
   answer per line.  Unknown or malformed requests answer `bad-op`; the models
@@ -147,6 +149,74 @@ def parseVals : List String → Option (List Using.Val)
       pure (.num (n = "1") b :: rest)
   | _ => none
 
+def hexVal (c : Char) : Option Nat :=
+  if '0' ≤ c ∧ c ≤ '9' then some (c.toNat - 48)
+  else if 'a' ≤ c ∧ c ≤ 'f' then some (c.toNat - 87) else none
+
+def hexBytes : List Char → Option (List Nat)
+  | [] => some []
+  | a :: b :: r => do let x ← hexVal a; let y ← hexVal b; let rest ← hexBytes r; pure ((x * 16 + y) :: rest)
+  | _ => none
+
+def toHex (bs : List Nat) : String :=
+  let d (n : Nat) : Char := if n < 10 then Char.ofNat (48 + n) else Char.ofNat (87 + n)
+  String.ofList (bs.flatMap fun b => [d (b / 16), d (b % 16)])
+
+/-- split a module image into (section id, payload) -/
+def sections : Nat → List Nat → Option (List (Nat × List Nat))
+  | _, [] => some []
+  | 0, _ => none
+  | f + 1, id :: r =>
+    match Module.takeN 4 r with
+    | none => none
+    | some (h, r') =>
+      match Module.takeN (Bytes.val h) r' with
+      | none => none
+      | some (p, r'') => (sections f r'').map ((id, p) :: ·)
+
+def encOperandTxt : Instr.Operand → String
+  | .u8 n => s!"{n}" | .i16 i => s!"{i}" | .u16 n => s!"{n}" | .i32 i => s!"{i}"
+  | .label n => s!"@{n}" | .f32 b => s!"f{b}" | .f64 b => s!"d{b}" | .lit i => s!"${i}"
+
+def encInstr (i : Instr.Instr) : String :=
+  (match Instr.lookupName Gen.instrTable i.opcode with | some n => n | none => "?") ++
+  (if i.ops.isEmpty then "" else ":" ++ ",".intercalate (i.ops.map encOperandTxt))
+
+def encItem : Module.Item → String
+  | none => "E"
+  | some s => "S" ++ toHex s
+
+def handleModule (hex : String) : String :=
+  match hexBytes hex.toList with
+  | none => "bad-op"
+  | some bs =>
+    match sections (bs.length + 1) bs with
+    | none => "bad-sections"
+    | some secs =>
+      let get (id : Nat) := (secs.find? (·.1 = id)).map (·.2)
+      let lits := match get 1 with
+        | some p => (match Module.parseLiterals (p.length + 1) p with
+          | some ls => "L " ++ " ".intercalate (toString ls.length :: ls.map toHex)
+          | none => "L bad")
+        | none => "L -"
+      let data := match get 2 with
+        | some p => (match Module.parseData p with
+          | some d => "D " ++ " ".intercalate (toString d.length :: d.map fun part =>
+              " ".intercalate (toString part.length :: part.map encItem))
+          | none => "D bad")
+        | none => "D -"
+      let glob := match get 3 with
+        | some p => if p.length = 4 then s!"G {Bytes.val p}" else "G bad"
+        | none => "G -"
+      let code := match get 4 with
+        | some p => (match Instr.decodeAll (p.length + 1) p with
+          | some is => "C " ++ " ".intercalate (toString is.length :: is.map encInstr) ++
+              " | " ++ " ".intercalate ((Instr.starts 0 is).map toString) ++
+              (if Instr.encodeAll is = p then " | same" else " | differ")
+          | none => "C bad")
+        | none => "C -"
+      lits ++ " ; " ++ data ++ " ; " ++ glob ++ " ; " ++ code ++ " ; ids " ++ " ".intercalate (secs.map (toString ·.1))
+
 def handle (toks : List String) : String :=
   match toks with
   | "print" :: r =>
@@ -230,6 +300,7 @@ def handle (toks : List String) : String :=
       | none => "bad-op"
     | none => "bad-op"
   | "input" :: r => (handleInput r).getD "bad-op"
+  | ["module", hex] => handleModule hex
   | ["uscan", f] =>
     match decStr f with
     | some f => match Using.scanFmt f with
